@@ -4,6 +4,7 @@ package verifharness
 
 import (
 	"context"
+	"encoding/json"
 	"errors"
 	"fmt"
 	"os"
@@ -66,11 +67,12 @@ func trStep() {
 // scenario is neither run again nor extended. A fresh run (-from 0) starts with empty files.
 type trJournal struct {
 	run, skipf string
-	skip       map[int]bool
+	skip       map[string]bool // by CONTENT of the scenario: indices are not stable across restarts (the alphabet of a
+	// prefix depends on which parked sender Go's select happened to pick)
 }
 
 func newTrJournal(name string) *trJournal {
-	j := &trJournal{skip: map[int]bool{}}
+	j := &trJournal{skip: map[string]bool{}}
 	if *flagOut == "" {
 		return j
 	}
@@ -86,19 +88,23 @@ func newTrJournal(name string) *trJournal {
 		os.Remove(j.run)
 	}
 	if b, err := os.ReadFile(j.skipf); err == nil {
-		for _, l := range strings.Fields(string(b)) {
-			var n int
-			if _, err := fmt.Sscan(l, &n); err == nil {
-				j.skip[n] = true
+		for _, l := range strings.Split(string(b), "\n") {
+			if l != "" {
+				j.skip[l] = true
 			}
 		}
 	}
 	return j
 }
 
-func (j *trJournal) begin(idx int) {
+func trKey(v any) string {
+	b, _ := json.Marshal(v)
+	return string(b)
+}
+
+func (j *trJournal) begin(key string) {
 	if j.run != "" {
-		os.WriteFile(j.run, []byte(fmt.Sprintf("%d\n", idx)), 0o644)
+		os.WriteFile(j.run, []byte(key+"\n"), 0o644)
 	}
 }
 
@@ -301,14 +307,15 @@ func TestC19Chan(t *testing.T) {
 					nW++
 				}
 			}
-			if len(prefix) > 0 && jr.skip[idx] { // wedged or died in an earlier attempt of this run: reported then
+			key := trKey(map[string]any{"cap": capacity, "acts": prefix})
+			if len(prefix) > 0 && jr.skip[key] { // wedged or died in an earlier attempt of this run: reported then
 				idx++
 				return
 			}
 			if len(prefix) > 0 {
 				if want(idx) {
 					em.Marker("begin", idx)
-					jr.begin(idx)
+					jr.begin(key)
 					unguard := trGuard(em, idx, "chan-lockstep", map[string]any{"cap": capacity, "acts": prefix}, []string{fmt.Sprintf("chan-cap:%d", capacity)})
 					run, w, r, bad := runChan(t, capacity, prefix)
 					unguard()
@@ -328,7 +335,9 @@ func TestC19Chan(t *testing.T) {
 					em.Marker("end", idx)
 				} else {
 					var run *chRun
-					run, pw, pr, _ = runChan(t, capacity, prefix)
+					unguard := trGuard(em, idx, "chan-lockstep", map[string]any{"cap": capacity, "acts": prefix, "rerun": true}, []string{"chan-rerun"})
+					run, pw, pr, _ = runChan(t, capacity, prefix) // a re-run for the enumeration's sake: guarded all the same
+					unguard()
 					if run.aborted {
 						return
 					}
